@@ -12,12 +12,17 @@ type Tape struct {
 	pos      int
 	rec      []uint32
 	state    uint64
+	forced   []uint32
 }
 
 // NewSearchTape creates a tape drawing from a splitmix64 stream.
 func NewSearchTape(seed uint64) *Tape {
 	return &Tape{state: seed}
 }
+
+// Force makes the first choices of a search tape take the given values (used to
+// enumerate a configuration grid by run index); they are recorded like any other.
+func (t *Tape) Force(prefix []uint32) { t.forced = prefix }
 
 // NewReplayTape creates a tape replaying recorded choices.
 func NewReplayTape(rec []uint32) *Tape {
@@ -60,6 +65,12 @@ func (t *Tape) chooseBiased(n int, pick func(r uint64) int) int {
 		return v
 	}
 	r := t.next64()
+	if t.pos < len(t.forced) {
+		v = int(t.forced[t.pos] % uint32(n))
+		t.pos++
+		t.rec = append(t.rec, uint32(v))
+		return v
+	}
 	if pick != nil {
 		v = pick(r)
 		if v < 0 || v >= n {
